@@ -68,6 +68,19 @@ def run(ctx):
                       "script": [{"op": "park", "point": "sr.svc.enter"}, {"op": "adopt", "p": "a1"}, {"op": "accept"}, {"op": "wait_park", "point": "sr.svc.enter"}, {"op": "shutdown", "ctx": "thread", "wait": False}, {"op": "sleep", "ms": 10 * (k + 1)}, {"op": "release", "point": "sr.svc.enter"}, {"op": "wait_end", "timeout": 4.0},
                                  {"op": "second_accept", "timeout": 0.6}, {"op": "sleep", "ms": 50}, {"op": "shutdown2"}, {"op": "sleep", "ms": 150}], "shape": "targeted-shutdown-at-running"})
     # shutdown() a second time after a clean first one (also after accept() has ended), and
+    # a threading payload that raises a BaseException (KeyboardInterrupt, SystemExit, a custom
+    # one) ends the run like any other failure; a restart is possible afterwards
+    for how in ("base:KeyboardInterrupt", "base:SystemExit", "base:UserBase"):
+        extra.append({"seed": ctx.seed, "jitter": 0.0, "payloads": {"f": {"flavour": "threading"}, "a1": {"flavour": "asyncio", "cleanup": 1}},
+                      "script": [{"op": "adopt", "p": "a1"}, {"op": "adopt", "p": "f"}, {"op": "accept"}, {"op": "wait_running"}, {"op": "wait_start", "p": "a1"}, {"op": "wait_start", "p": "f"}, {"op": "end", "p": "f", "how": how}, {"op": "wait_end", "timeout": 4.0},
+                                 {"op": "second_accept", "timeout": 0.6}, {"op": "sleep", "ms": 50}, {"op": "shutdown2"}, {"op": "sleep", "ms": 150}], "shape": "targeted-thread-payload-raises-base"})
+    # the service loop itself fails (a service whose run attribute cannot be looked up):
+    # accept() raises, and a shutdown() afterwards (or racing it) still returns
+    for k in range(2):
+        extra.append({"seed": ctx.seed + k, "jitter": 0.0, "payloads": {"a1": {"flavour": "asyncio", "cleanup": 1}}, "services": {"sbad": {"flavour": "trio", "bad_run": True, "immediate": "exc:UserExc"}},
+                      "script": [{"op": "adopt", "p": "a1"}, {"op": "accept"}, {"op": "wait_running"}, {"op": "wait_start", "p": "a1"}, {"op": "new_service", "s": "sbad", "ctx": "driver"}]
+                      + ([{"op": "wait_end", "timeout": 4.0}, {"op": "shutdown", "ctx": "thread", "wait": True}] if k == 0 else [{"op": "wait_start", "p": "sbad"}, {"op": "shutdown", "ctx": "thread", "wait": True}, {"op": "wait_end", "timeout": 4.0}])
+                      + [{"op": "second_accept", "timeout": 0.6}, {"op": "sleep", "ms": 50}, {"op": "shutdown2"}, {"op": "sleep", "ms": 150}], "shape": "targeted-service-loop-fails"})
     # payloads that swallow their first cancellation(s)
     for k in range(3):
         extra.append({"seed": ctx.seed + k, "jitter": 0.0, "payloads": {"a1": {"flavour": "asyncio", "swallow": k, "cleanup": 1}, "t1": {"flavour": "trio"}},
